@@ -1,66 +1,117 @@
-(* JsScope/Resolve7.v — layer 2, part 7: blocks and functions; the induction over the fragment. *)
+(* JsScope/Resolve7.v — layer 2, part 7: blocks, functions with default values, arrows, catch clauses; the
+   induction over the fragment. *)
 From Coq Require Import ZifyBool.
 From Verif Require Import Common.Base Common.Tactics JsScope.Model JsScope.Spec JsScope.Abs JsScope.HeapLemmas
   JsScope.SimUse JsScope.SimDeclare JsScope.SimDeclare3 JsScope.Resolve1 JsScope.Resolve2 JsScope.Resolve3 JsScope.Resolve4
-  JsScope.Resolve5 JsScope.Resolve6.
+  JsScope.Resolve5 JsScope.Resolve6 JsScope.ResolveIrr.
 
-(* the common part of Block and Func: a scope is entered (already done: state a1 with the new frame B1 on
-   top of z), its body b has run (state a2), it is exited and the continuation k runs *)
+(* ---- facts about the fragment ------------------------------------------------------------------------------------ *)
+Lemma core_d_headdecls p : core_d p = true -> headdecls p = [].
+Proof.
+  induction p; cbn [core_d headdecls]; intros H; try discriminate; try reflexivity.
+  - apply IHp. exact H.
+  - apply andb_true_iff in H. destruct H as [Hd H]. destruct d; try discriminate; cbn; apply IHp; exact H.
+  - apply andb_true_iff in H. apply IHp2. apply H.
+  - destruct nm; [discriminate|]. apply andb_true_iff in H. apply IHp3. apply H.
+  - apply andb_true_iff in H. apply IHp3. apply H.
+  - apply andb_true_iff in H. apply IHp3. apply H.
+Qed.
+
+Lemma pcore_d_lexvar p : pcore_d p = true -> lexdecls p = [] /\ vardecls p = [].
+Proof.
+  induction p; cbn [pcore_d lexdecls vardecls]; intros H; try discriminate; try (split; reflexivity).
+  - apply andb_true_iff in H. apply IHp. apply H.
+  - destruct d; try discriminate. cbn. apply IHp. exact H.
+  - destruct nm; [discriminate|]. apply andb_true_iff in H. apply IHp3. apply H.
+  - apply andb_true_iff in H. apply IHp3. apply H.
+Qed.
+
+Lemma pcore_d_allnames p : pcore_d p = true -> forall x, In x (allnames p) -> In x (headdecls p) \/ In x (default_names p).
+Proof.
+  induction p; cbn [pcore_d allnames headdecls default_names]; intros H y Hy; try discriminate.
+  - destruct Hy.
+  - apply andb_true_iff in H. destruct H as [_ H]. destruct Hy as [<-|Hy]; [right; left; reflexivity|].
+    destruct (IHp H y Hy) as [G|G]; [left; exact G|right; right; exact G].
+  - destruct d; try discriminate. cbn [app]. destruct Hy as [<-|Hy]; [left; left; reflexivity|].
+    destruct (IHp H y Hy) as [G|G]; [left; right; exact G|right; exact G].
+  - destruct nm; [discriminate|]. apply andb_true_iff in H. destruct H as [_ H]. cbn [app] in *.
+    apply in_app_iff in Hy. destruct Hy as [Hy|Hy]; [right; apply in_app_iff; left; exact Hy|].
+    apply in_app_iff in Hy. destruct Hy as [Hy|Hy]; [right; apply in_app_iff; right; apply in_app_iff; left; exact Hy|].
+    destruct (IHp3 H y Hy) as [G|G]; [left; exact G|right; apply in_app_iff; right; apply in_app_iff; right; exact G].
+  - apply andb_true_iff in H. destruct H as [_ H].
+    apply in_app_iff in Hy. destruct Hy as [Hy|Hy]; [right; apply in_app_iff; left; exact Hy|].
+    apply in_app_iff in Hy. destruct Hy as [Hy|Hy]; [right; apply in_app_iff; right; apply in_app_iff; left; exact Hy|].
+    destruct (IHp3 H y Hy) as [G|G]; [left; exact G|right; apply in_app_iff; right; apply in_app_iff; right; exact G].
+Qed.
+
+(* the common part of Block, Func, Arrow and Catch: a scope has been entered (frame B on top of z), its
+   content has run (state a2), it is exited and the continuation k runs *)
 Section Nested.
   Variables (k : prog) (V : list Z).      (* V: the var-like names the scope lets through to the parent *)
   Hypothesis IHk : run_ok k.
 
-  Lemma after_scope a fr pr rest a2 B' prB P' rest1 names ts_b n_b :
+  Lemma after_scope a fr pr rest a2 B' prB P' rest1 names ts_b n_b Nb :
     AInv a ((fr, pr) :: rest) ->
-    (* the state after the body *)
     AInv a2 ((B', prB) :: (P', pr) :: rest1) ->
     fid B' = anext a -> pnames prB = names ->
     shape ((P', pr) :: rest1) = shape ((fr, pr) :: rest) ->
     grow_one (below V (B', prB)) (fr, pr) (P', pr) ->
     grow_rest (below (below V (B', prB)) (fr, pr)) rest rest1 ->
     (forall y, In y (pnames prB) -> In y (dnames B')) ->
+    (forall y, In (UPend y) (fund B') -> In y Nb) ->
     map (final ((anext a, false, names) :: env_of ((fr, pr) :: rest))) (alog a2)
       = rev ts_b ++ map (final ((anext a, false, names) :: env_of ((fr, pr) :: rest))) (alog a) ->
     anext a2 = n_b -> (anext a <= n_b)%nat ->
-    (* the continuation *)
     NoDup (lexdecls k) ->
     (forall x, In x (lexdecls k) -> In x (plex pr) /\ ~ In x (dnames fr)) ->
     (forall x, In x (below V (B', prB)) -> var_ok x ((fr, pr) :: rest)) ->
     (forall x, In x (vardecls k) -> var_ok x ((fr, pr) :: rest)) ->
+    NoDup (headdecls k) ->
+    (forall x, In x (headdecls k) -> In x (pvar pr) /\ ~ In x (dnames fr) /\ ~ In (UPend x) (fund fr)
+                                     /\ ~ In x (below V (B', prB)) /\ ~ In x Nb) ->
     spec_ok k = true ->
     exists a' fr' rest',
       arun a2 (EExit :: linearise k) = ARun a' /\ AInv a' ((fr', pr) :: rest') /\
-      grow (lexdecls k) (below V (B', prB) ++ vardecls k) ((fr, pr) :: rest) ((fr', pr) :: rest') /\
+      grow (lexdecls k ++ headdecls k) (below V (B', prB) ++ vardecls k) ((fr, pr) :: rest) ((fr', pr) :: rest') /\
       (forall x, In x (lexdecls k) -> In x (dnames fr')) /\
       (forall x, In x (vardecls k) -> In x (func_dnames ((fr', pr) :: rest'))) /\
       incl (func_dnames ((P', pr) :: rest1)) (func_dnames ((fr', pr) :: rest')) /\
+      (forall x, In x (headdecls k) -> In x (dnames fr')) /\
+      (forall y, In (UPend y) (fund fr') -> In (UPend y) (fund fr) \/ In y Nb \/ In y (allnames k)) /\
       map (final (env_of ((fr, pr) :: rest))) (alog a')
         = rev (fst (resolve (env_of ((fr, pr) :: rest)) (func_of ((fr, pr) :: rest)) (fid fr) false n_b k))
           ++ rev ts_b ++ map (final (env_of ((fr, pr) :: rest))) (alog a) /\
       anext a' = snd (resolve (env_of ((fr, pr) :: rest)) (func_of ((fr, pr) :: rest)) (fid fr) false n_b k).
   Proof.
-    intros A A2 HfidB Hnames Hs1 Gp Gr Hfull Fb Nb Hle Hnd Hlex HVok Hvar Hok.
+    intros A A2 HfidB Hnames Hs1 Gp Gr Hfull HNb Fb Nb' Hle Hnd Hlex HVok Hvar Hndh Hhead Hok.
     pose proof (A_frames _ _ A) as [Kfr _].
-    destruct (L_exit a2 B' prB P' pr rest1 A2 Hfull) as (a3 & P'' & H3 & A3 & E1 & E2 & E3 & _ & N3 & F3).
+    destruct (L_exit a2 B' prB P' pr rest1 A2 Hfull) as (a3 & P'' & H3 & A3 & E1 & E2 & E3 & _ & E4 & N3 & F3).
     assert (Hs3 : shape ((P'', pr) :: rest1) = shape ((fr, pr) :: rest)).
     { rewrite <- Hs1. cbn. rewrite E1, E2. reflexivity. }
     assert (Edn : dnames P'' = dnames P') by (unfold dnames; rewrite E3; reflexivity).
-    destruct Gp as [Gpi Gpb]. unfold dn in Gpi, Gpb. cbn [fst] in Gpi, Gpb.
-    destruct (IHk a3 P'' pr rest1 A3 Hnd) as (a' & fr' & rest' & R & A' & G & P1 & P2 & F & N).
+    destruct Gp as (Gpi & Gpb & Gpu). unfold dn in Gpi, Gpb. cbn [fst] in Gpi, Gpb, Gpu.
+    destruct (IHk a3 P'' pr rest1 A3 Hnd) as (a' & fr' & rest' & R & A' & G & P1 & P2 & P3 & P4 & F & N).
     { intros y Hy. destruct (Hlex y Hy) as [Hyp Hyn]. split; [exact Hyp|]. rewrite Edn. intros Hi.
       destruct (Gpb y Hi) as [H|H]; [contradiction|]. apply (lex_var_contra fr pr rest y Kfr Hyp). apply HVok. exact H. }
     { intros y Hy. apply (var_ok_shape y ((fr, pr) :: rest)); [symmetry; exact Hs3|apply Hvar; exact Hy]. }
+    { exact Hndh. }
+    { intros y Hy. destruct (Hhead y Hy) as (Q1 & Q2 & Q3 & Q4 & Q5). split; [exact Q1|]. split.
+      - rewrite Edn. intros Hi. destruct (Gpb y Hi) as [H|H]; contradiction.
+      - intros Hi. destruct (E4 y Hi) as [H|H]; [apply Q3; apply Gpu; exact H|apply Q5; apply HNb; exact H]. }
     { exact Hok. }
     assert (Efid : fid P'' = fid fr) by (cbn in Hs3; injection Hs3 as H _; exact H).
-    rewrite (env_of_shape _ _ Hs3), (func_of_shape _ _ Hs3), Efid, N3, Nb in F, N.
+    rewrite (env_of_shape _ _ Hs3), (func_of_shape _ _ Hs3), Efid, N3, Nb' in F, N.
     exists a', fr', rest'. split.
     { cbn [arun astep]. rewrite H3. exact R. }
     split; [exact A'|]. split.
-    { apply (grow_weaken ([] ++ lexdecls k) (below V (B', prB) ++ vardecls k)); [apply incl_refl|apply incl_refl|].
+    { apply (grow_weaken ([] ++ lexdecls k ++ headdecls k) (below V (B', prB) ++ vardecls k)); [apply incl_refl|apply incl_refl|].
       eapply grow_trans; [|exact G]. split; [exact Hs3|]. unfold dn. cbn [fst]. rewrite Edn.
       split; [exact Gpi|]. split; [|exact Gr]. intros y Hy. destruct (Gpb y Hy) as [H|H]; [left; exact H|right; right; exact H]. }
     split; [exact P1|]. split; [exact P2|]. split.
     { eapply incl_tran; [|apply (func_dnames_mono _ _ _ _ G)]. cbn [func_dnames]. rewrite E2, Edn. apply incl_refl. }
+    split; [exact P3|]. split.
+    { intros y Hy. destruct (P4 y Hy) as [H|H]; [|right; right; exact H].
+      destruct (E4 y H) as [H'|H']; [left; apply Gpu; exact H'|right; left; apply HNb; exact H']. }
     split; [|exact N].
     rewrite F. f_equal. rewrite (env_of_shape _ _ Hs1) in F3. rewrite F3.
     assert (Eenv : env_of ((B', prB) :: (P', pr) :: rest1) = (anext a, false, names) :: env_of ((fr, pr) :: rest)).
@@ -70,9 +121,9 @@ Section Nested.
 End Nested.
 
 (* ---- Block ------------------------------------------------------------------------------------------------------ *)
-Lemma run_ok_block b k : run_ok b -> run_ok k -> run_ok (Block b k).
+Lemma run_ok_block b k : headdecls b = [] -> headdecls k = [] -> run_ok b -> run_ok k -> run_ok (Block b k).
 Proof.
-  intros IHb IHk a fr pr rest A Hnd Hlex Hvar Hok.
+  intros Hb0 Hk0 IHb IHk a fr pr rest A Hnd Hlex Hvar _ _ Hok.
   cbn [lexdecls] in Hnd, Hlex. cbn [vardecls] in Hvar. cbn [spec_ok] in Hok.
   apply andb_true_iff in Hok. destruct Hok as [Hok Hokk]. apply andb_true_iff in Hok. destruct Hok as [Hsc Hokb].
   destruct (scope_ok_spec [] b Hsc) as (Hndb & Hlv & _).
@@ -80,40 +131,47 @@ Proof.
   destruct (L_enter a ((fr, pr) :: rest) false prB A) as (a1 & H1 & A1 & El & En).
   { intros y _ []. }
   set (B0 := mkF (anext a) false [] [] O) in *.
-  destruct (IHb a1 B0 prB ((fr, pr) :: rest) A1 Hndb) as (a2 & B' & z1 & R2 & A2 & G2 & P1b & P2b & F2 & N2).
+  destruct (IHb a1 B0 prB ((fr, pr) :: rest) A1 Hndb) as (a2 & B' & z1 & R2 & A2 & G2 & P1b & P2b & P3b & P4b & F2 & N2).
   { intros y Hy. split; [exact Hy|intros []]. }
   { intros y Hy. cbn [var_ok fisfunc B0]. split.
     - unfold pnames. cbn [pvar plex prB app]. intros Hi. apply (Hlv y Hi Hy).
     - apply Hvar. apply in_app_iff. left. exact Hy. }
+  { rewrite Hb0. constructor. }
+  { rewrite Hb0. intros y []. }
   { exact Hokb. }
   pose proof (grow_shape _ _ _ _ G2) as Hs2. cbn [shape map fst snd] in Hs2. injection Hs2 as HfidB HfB Hs2.
   destruct (shape_cons_inv z1 fr pr rest Hs2) as (P' & rest1 & -> & _ & _ & _).
   destruct G2 as [_ (G2i & G2b & G2r)]. cbn [grow_rest] in G2r. destruct G2r as [Gp Gr].
   assert (Ebelow : below (vardecls b) (B', prB) = vardecls b) by (unfold below; cbn [fst]; rewrite HfB; reflexivity).
   assert (Ebelow0 : below (vardecls b) (B0, prB) = vardecls b) by reflexivity.
-  rewrite Ebelow0 in Gp, Gr.
+  rewrite Ebelow0 in Gp. rewrite Ebelow0 in Gr.
   rewrite El, En in F2. rewrite En in N2.
   remember (resolve (env_of ((B0, prB) :: (fr, pr) :: rest)) (func_of ((B0, prB) :: (fr, pr) :: rest)) (fid B0) false (S (anext a)) b) as RB eqn:HeqRB.
   assert (Hle : (anext a <= snd RB)%nat).
   { rewrite <- N2. destruct A2 as [_ _ An _]. pose proof (An (B', prB) (or_introl eq_refl)) as H. cbn [fst] in H. lia. }
-  destruct (after_scope k (vardecls b) IHk a fr pr rest a2 B' prB P' rest1 (lexdecls b) (fst RB) (snd RB)
+  destruct (after_scope k (vardecls b) IHk a fr pr rest a2 B' prB P' rest1 (lexdecls b) (fst RB) (snd RB) (allnames b)
               A A2 HfidB eq_refl Hs2)
-    as (a' & fr' & rest' & R & A' & G & P1 & P2 & Pf & F & N).
+    as (a' & fr' & rest' & R & A' & G & P1 & P2 & Pf & P3 & P4 & F & N).
   { rewrite Ebelow. exact Gp. }
   { rewrite Ebelow. exact Gr. }
   { intros y Hy. apply P1b. exact Hy. }
+  { intros y Hy. destruct (P4b y Hy) as [[]|H]. exact H. }
   { exact F2. }
   { exact N2. }
   { exact Hle. }
   { exact Hnd. } { exact Hlex. }
   { rewrite Ebelow. intros y Hy. apply Hvar. apply in_app_iff. left. exact Hy. }
   { intros y Hy. apply Hvar. apply in_app_iff. right. exact Hy. }
+  { rewrite Hk0. constructor. }
+  { rewrite Hk0. intros y []. }
   { exact Hokk. }
   exists a', fr', rest'. split.
   { cbn [linearise arun astep]. rewrite H1. rewrite arun_app, R2. exact R. }
-  split; [exact A'|]. split; [rewrite Ebelow in G; exact G|]. split; [exact P1|]. split.
+  split; [exact A'|]. split; [cbn [lexdecls headdecls vardecls]; rewrite Ebelow in G; exact G|]. split; [exact P1|]. split.
   { intros y Hy. apply in_app_iff in Hy. destruct Hy as [Hy|Hy]; [|apply P2; exact Hy].
     apply Pf. specialize (P2b y Hy). cbn [func_dnames] in P2b. rewrite HfB in P2b. exact P2b. }
+  split; [cbn [headdecls]; exact P3|]. split.
+  { intros y Hy. cbn [allnames]. destruct (P4 y Hy) as [H|[H|H]]; [left; exact H|right; apply in_app_iff; left; exact H|right; apply in_app_iff; right; exact H]. }
   cbn [resolve].
   change (resolve ((anext a, false, lexdecls b) :: env_of ((fr, pr) :: rest)) (func_of ((fr, pr) :: rest)) (anext a) false (S (anext a)) b)
     with (resolve (env_of ((B0, prB) :: (fr, pr) :: rest)) (func_of ((B0, prB) :: (fr, pr) :: rest)) (fid B0) false (S (anext a)) b).
@@ -122,75 +180,122 @@ Proof.
   cbn [fst snd] in *. split; [|exact N]. rewrite F, rev_app_distr, <- app_assoc. reflexivity.
 Qed.
 
-(* ---- Func -------------------------------------------------------------------------------------------------------- *)
-Lemma run_ok_func ps b k : params_only ps = true -> run_ok b -> run_ok k -> run_ok (Func None ps b k).
+(* ---- Func / Arrow, with default values ------------------------------------------------------------------------------ *)
+Lemma grow_rest_trans_nil r1 r2 r3 :
+  shape r2 = shape r1 -> grow_rest [] r1 r2 -> grow_rest [] r2 r3 -> grow_rest [] r1 r3.
+Proof. intros Hs H1 H2. exact (grow_rest_trans r1 [] [] r2 r3 Hs H1 H2). Qed.
+
+Lemma run_ok_func ps b k :
+  pcore_d ps = true -> disjointb (default_names ps) (vardecls b ++ lexdecls b) = true -> headdecls b = [] ->
+  (forall x, In x (headdecls k) -> ~ In x (allnames ps ++ allnames b)) ->
+  run_ok ps -> run_ok b -> run_ok k -> run_ok (Func None ps b k).
 Proof.
-  intros Hps IHb IHk a fr pr rest A Hnd Hlex Hvar Hok.
-  cbn [lexdecls] in Hnd, Hlex. cbn [vardecls] in Hvar. cbn [spec_ok] in Hok.
+  intros Hps Hdis Hb0 Hkfresh IHps IHb IHk a fr pr rest A Hnd Hlex Hvar Hndh Hhead Hok.
+  cbn [lexdecls] in Hnd, Hlex. cbn [vardecls] in Hvar. cbn [headdecls] in Hndh, Hhead. cbn [spec_ok] in Hok.
   apply andb_true_iff in Hok. destruct Hok as [Hok Hokk]. apply andb_true_iff in Hok. destruct Hok as [Hok Hokb].
-  apply andb_true_iff in Hok. destruct Hok as [Hok _]. apply andb_true_iff in Hok. destruct Hok as [Hndp Hsc].
+  apply andb_true_iff in Hok. destruct Hok as [Hok Hokps]. apply andb_true_iff in Hok. destruct Hok as [Hndp Hsc].
   apply nodupb_NoDup in Hndp. destruct (scope_ok_spec (headdecls ps) b Hsc) as (Hndb & Hlv & Hlh).
+  pose proof (disjointb_spec _ _ Hdis) as Hdis'.
+  destruct (pcore_d_lexvar ps Hps) as [Epl Epv].
   set (prF := mkPr (lexdecls b) (headdecls ps ++ vardecls b)).
+  assert (Epn : pnames prF = headdecls ps ++ vardecls b ++ lexdecls b).
+  { unfold pnames. cbn [pvar plex prF]. rewrite <- app_assoc. reflexivity. }
   destruct (L_enter a ((fr, pr) :: rest) true prF A) as (a1 & H1 & A1 & El1 & En1).
   { intros y Hy Hi. cbn [pvar prF] in Hi. apply in_app_iff in Hi. destruct Hi as [Hi|Hi]; [apply (Hlh y Hy Hi)|apply (Hlv y Hy Hi)]. }
   set (F0 := mkF (anext a) true [] [] O) in *.
-  destruct (run_params (headdecls ps) a1 F0 prF ((fr, pr) :: rest) A1 Hndp) as (a2 & F2 & R2 & A2 & E1 & E2 & E3 & E4 & En2 & Fp).
-  { intros y Hy. split; [cbn [pvar prF]; apply in_app_iff; left; exact Hy|intros []]. }
-  { reflexivity. }
-  cbn [fid fisfunc F0] in E1, E2. cbn [dnames fdecl F0 map app] in E3.
-  assert (Hmark : a_mark_args a2 = ARun a2) by (apply (L_mark a2 F2 prF ((fr, pr) :: rest) A2 E4)).
-  destruct (IHb a2 F2 prF ((fr, pr) :: rest) A2 Hndb) as (a3 & F' & z1 & R3 & A3 & G3 & P1b & P2b & F3 & N3).
-  { intros y Hy. split; [exact Hy|]. rewrite E3. apply Hlh. exact Hy. }
-  { intros y Hy. cbn [var_ok]. rewrite E2. cbn [pvar prF]. apply in_app_iff. right. exact Hy. }
+  (* the parameter list *)
+  destruct (IHps a1 F0 prF ((fr, pr) :: rest) A1) as (a2 & F2 & z2 & R2 & A2 & G2 & _ & _ & P3p & P4p & Fp & Np).
+  { rewrite Epl. constructor. } { rewrite Epl. intros y []. } { rewrite Epv. intros y []. } { exact Hndp. }
+  { intros y Hy. split; [cbn [pvar prF]; apply in_app_iff; left; exact Hy|]. split; intros []. }
+  { exact Hokps. }
+  pose proof (grow_shape _ _ _ _ G2) as Hs2. cbn [shape map fst snd] in Hs2. injection Hs2 as HfidF2 HfF2 Hs2.
+  cbn [fid fisfunc F0] in HfidF2, HfF2.
+  assert (Hs2z : shape z2 = shape ((fr, pr) :: rest)) by exact Hs2.
+  destruct G2 as [_ (G2i & G2b & G2r)]. assert (Eb0 : below (vardecls ps) (F0, prF) = []) by reflexivity. rewrite Eb0 in G2r.
+  unfold dn in G2i, G2b. cbn [fst dnames fdecl F0 map] in G2i, G2b. rewrite Epl, Epv in G2b. cbn [app] in G2b.
+  (* the uses made by the default values are of names the function does not declare *)
+  destruct (A_frames _ _ A2) as [KF2 _].
+  assert (Hargs : forall y, In (UPend y) (fund F2) -> ~ In y (pnames prF)).
+  { intros y Hy Hin. destruct (P4p y Hy) as [[]|Hall].
+    destruct (pcore_d_allnames ps Hps y Hall) as [Hh|Hd].
+    - apply (K_pend _ _ _ KF2 y Hy). apply P3p. exact Hh.
+    - rewrite Epn in Hin. apply in_app_iff in Hin. destruct Hin as [Hin|Hin].
+      + apply (K_pend _ _ _ KF2 y Hy). apply P3p. exact Hin.
+      + apply (Hdis' y Hd Hin). }
+  destruct (L_mark a2 F2 prF z2 A2 Hargs) as (a2m & F2m & Hm & A2m & M1 & M2 & M3 & M4 & M5 & M6).
+  assert (EdnM : dnames F2m = dnames F2) by (unfold dnames; rewrite M3; reflexivity).
+  (* the body *)
+  destruct (IHb a2m F2m prF z2 A2m Hndb) as (a3 & F' & z3 & R3 & A3 & G3 & P1b & P2b & _ & P4b & F3 & N3).
+  { intros y Hy. split; [exact Hy|]. rewrite EdnM. intros Hi. destruct (G2b y Hi) as [[]|[Hi'|[]]].
+    apply (Hlh y Hy). exact Hi'. }
+  { intros y Hy. cbn [var_ok]. rewrite M2, HfF2. cbn [pvar prF]. apply in_app_iff. right. exact Hy. }
+  { rewrite Hb0. constructor. } { rewrite Hb0. intros y []. }
   { exact Hokb. }
-  pose proof (grow_shape _ _ _ _ G3) as Hs3. cbn [shape map fst snd] in Hs3. injection Hs3 as HfidF HfF Hs3.
-  destruct (shape_cons_inv z1 fr pr rest Hs3) as (P' & rest1 & -> & _ & _ & _).
-  destruct G3 as [_ (G3i & G3b & G3r)]. cbn [grow_rest] in G3r. destruct G3r as [Gp Gr].
-  assert (Eb2 : below (vardecls b) (F2, prF) = []) by (unfold below; cbn [fst]; rewrite E2; reflexivity).
-  rewrite Eb2 in Gp. rewrite Eb2 in Gr.
+  pose proof (grow_shape _ _ _ _ G3) as Hs3. cbn [shape map fst snd] in Hs3. injection Hs3 as HfidF' HfF' Hs3.
+  assert (Hs3z : shape z3 = shape ((fr, pr) :: rest)) by exact (eq_trans Hs3 Hs2).
+  destruct (shape_cons_inv z3 fr pr rest Hs3z) as (P' & rest1 & -> & _ & _ & _).
+  destruct G3 as [_ (G3i & G3b & G3r)].
+  assert (Eb3 : below (vardecls b) (F2m, prF) = []) by (unfold below; cbn [fst]; rewrite M2, HfF2; reflexivity). rewrite Eb3 in G3r.
+  pose proof (grow_rest_trans_nil ((fr, pr) :: rest) z2 ((P', pr) :: rest1) Hs2z G2r G3r) as Grest. cbn [grow_rest] in Grest. destruct Grest as [Gp Gr].
   assert (Eb' : forall g, below [] g = []) by (intros g; unfold below; destruct (fisfunc (fst g)); reflexivity).
-  assert (HfidF' : fid F' = anext a) by congruence.
-  (* the environment of the body as the resolver writes it *)
-  assert (Epn : pnames prF = headdecls ps ++ vardecls b ++ lexdecls b).
-  { unfold pnames. cbn [pvar plex prF]. rewrite <- app_assoc. reflexivity. }
-  assert (Eenv2 : env_of ((F2, prF) :: (fr, pr) :: rest)
-                  = (anext a, false, headdecls ps ++ vardecls b ++ lexdecls b) :: env_of ((fr, pr) :: rest)).
-  { cbn [env_of map fst snd]. rewrite E1, Epn. reflexivity. }
-  assert (Efun2 : func_of ((F2, prF) :: (fr, pr) :: rest) = anext a) by (cbn [func_of]; rewrite E2; exact E1).
+  assert (HfidF'a : fid F' = anext a) by congruence.
+  assert (HfF'true : fisfunc F' = true) by congruence.
+  (* the environments as the resolver writes them *)
   assert (Eenv0 : env_of ((F0, prF) :: (fr, pr) :: rest)
                   = (anext a, false, headdecls ps ++ vardecls b ++ lexdecls b) :: env_of ((fr, pr) :: rest)).
   { cbn [env_of map fst snd]. rewrite Epn. reflexivity. }
-  rewrite Eenv2, Efun2, E1, En2, En1 in F3, N3. rewrite Eenv0, El1 in Fp. cbn [fid F0] in Fp. rewrite Fp in F3.
+  assert (Eenv2 : env_of ((F2m, prF) :: z2) = (anext a, false, headdecls ps ++ vardecls b ++ lexdecls b) :: env_of ((fr, pr) :: rest)).
+  { cbn [env_of map fst snd]. rewrite M1, HfidF2, Epn. f_equal. apply (env_of_shape _ _ Hs2z). }
+  assert (Efun2 : func_of ((F2m, prF) :: z2) = anext a) by (cbn [func_of]; rewrite M2, HfF2, M1; exact HfidF2).
+  assert (Efun0 : func_of ((F0, prF) :: (fr, pr) :: rest) = anext a) by reflexivity.
+  rewrite Eenv0, Efun0, El1, En1 in Fp. rewrite Eenv0, Efun0, En1 in Np. cbn [fid F0] in Fp, Np.
+  (* the parameter list resolved in the scope of the parameters only *)
+  assert (Eirr : resolve ((anext a, false, headdecls ps ++ vardecls b ++ lexdecls b) :: env_of ((fr, pr) :: rest))
+                         (anext a) (anext a) false (S (anext a)) ps
+                 = resolve ((anext a, false, headdecls ps) :: env_of ((fr, pr) :: rest)) (anext a) (anext a) false (S (anext a)) ps).
+  { apply (resolve_irrelevant ps [] (anext a) false (headdecls ps) (vardecls b ++ lexdecls b)).
+    intros y Hy Hx. destruct (pcore_d_allnames ps Hps y Hy) as [Hh|Hd]; [exact Hh|]. exfalso. apply (Hdis' y Hd Hx). }
+  rewrite Eirr in Fp, Np.
+  remember (resolve ((anext a, false, headdecls ps) :: env_of ((fr, pr) :: rest)) (anext a) (anext a) false (S (anext a)) ps) as RP eqn:HeqRP.
+  rewrite Eenv2, Efun2, M1, HfidF2, M6, Np in F3, N3. rewrite M5, Fp in F3.
   remember (resolve ((anext a, false, headdecls ps ++ vardecls b ++ lexdecls b) :: env_of ((fr, pr) :: rest))
-                    (anext a) (anext a) false (S (anext a)) b) as RB eqn:HeqRB.
+                    (anext a) (anext a) false (snd RP) b) as RB eqn:HeqRB.
   assert (Hle : (anext a <= snd RB)%nat).
   { rewrite <- N3. destruct A3 as [_ _ An _]. pose proof (An (F', prF) (or_introl eq_refl)) as H. cbn [fst] in H. lia. }
   destruct (after_scope k [] IHk a fr pr rest a3 F' prF P' rest1 (headdecls ps ++ vardecls b ++ lexdecls b)
-              (map (TBind (anext a) false) (headdecls ps) ++ fst RB) (snd RB) A A3 HfidF' Epn Hs3)
-    as (a' & fr' & rest' & R & A' & G & P1 & P2 & Pf & F & N).
+              (fst RP ++ fst RB) (snd RB) (allnames ps ++ allnames b) A A3 HfidF'a Epn Hs3z)
+    as (a' & fr' & rest' & R & A' & G & P1 & P2 & Pf & P3 & P4 & F & N).
   { rewrite Eb'. exact Gp. }
   { rewrite !Eb'. rewrite Eb' in Gr. exact Gr. }
   { intros y Hy. rewrite Epn in Hy. apply in_app_iff in Hy. destruct Hy as [Hy|Hy].
-    - apply G3i. unfold dn. cbn [fst]. rewrite E3. exact Hy.
+    - apply G3i. unfold dn. cbn [fst]. rewrite EdnM. apply P3p. exact Hy.
     - apply in_app_iff in Hy. destruct Hy as [Hy|Hy]; [|apply P1b; exact Hy].
-      specialize (P2b y Hy). cbn [func_dnames] in P2b. rewrite HfF, E2 in P2b. exact P2b. }
+      specialize (P2b y Hy). cbn [func_dnames] in P2b. rewrite HfF'true in P2b. exact P2b. }
+  { intros y Hy. apply in_app_iff. destruct (P4b y Hy) as [H|H]; [|right; exact H].
+    rewrite M4 in H. destruct (P4p y H) as [[]|H']. left. exact H'. }
   { rewrite F3, rev_app_distr, <- app_assoc. reflexivity. }
   { exact N3. }
   { exact Hle. }
   { exact Hnd. } { exact Hlex. }
   { rewrite Eb'. intros y []. }
   { exact Hvar. }
+  { exact Hndh. }
+  { intros y Hy. destruct (Hhead y Hy) as (Q1 & Q2 & Q3). split; [exact Q1|]. split; [exact Q2|]. split; [exact Q3|].
+    split; [rewrite Eb'; intros []|apply Hkfresh; exact Hy]. }
   { exact Hokk. }
   exists a', fr', rest'. split.
-  { cbn [linearise app arun astep]. rewrite H1. rewrite arun_app. rewrite (params_only_lin ps Hps), R2.
-    cbn [arun astep]. rewrite Hmark. rewrite arun_app, R3. exact R. }
-  split; [exact A'|]. split; [rewrite Eb' in G; exact G|]. split; [exact P1|]. split; [exact P2|].
-  cbn [resolve]. rewrite (resolve_params _ _ _ _ _ Hps). rewrite <- HeqRB. destruct RB as [rb n1]. cbn [fst snd] in *.
-  destruct (resolve (env_of ((fr, pr) :: rest)) (func_of ((fr, pr) :: rest)) (fid fr) false n1 k) as [rk n2].
+  { cbn [linearise app arun astep]. rewrite H1. rewrite arun_app, R2.
+    cbn [arun astep]. rewrite Hm. rewrite arun_app, R3. exact R. }
+  split; [exact A'|]. split; [cbn [lexdecls headdecls vardecls]; rewrite Eb' in G; exact G|]. split; [exact P1|]. split; [exact P2|].
+  split; [cbn [headdecls]; exact P3|]. split.
+  { intros y Hy. cbn [allnames app]. destruct (P4 y Hy) as [H|[H|H]]; [left; exact H|right|right].
+    - apply in_app_iff in H. destruct H as [H|H]; [apply in_app_iff; left; exact H|apply in_app_iff; right; apply in_app_iff; left; exact H].
+    - apply in_app_iff. right. apply in_app_iff. right. exact H. }
+  cbn [resolve]. rewrite <- HeqRP. destruct RP as [rp n1]. cbn [fst snd] in *. rewrite <- HeqRB. destruct RB as [rb n2]. cbn [fst snd] in *.
+  destruct (resolve (env_of ((fr, pr) :: rest)) (func_of ((fr, pr) :: rest)) (fid fr) false n2 k) as [rk n3].
   cbn [fst snd app] in *. split; [|exact N]. rewrite F. rewrite !rev_app_distr, <- !app_assoc. reflexivity.
 Qed.
 
-(* ---- Arrow: the parser's events and the resolver's clauses are those of an anonymous function ---------------- *)
 Lemma run_ok_arrow ps b k : run_ok (Func None ps b k) -> run_ok (Arrow ps b k).
 Proof. intros H a fr pr rest. exact (H a fr pr rest). Qed.
 
@@ -221,29 +326,32 @@ Lemma run_catch_params : forall names a fr pr rest,
   exists a' fr',
     arun a (map (EDeclare CatchDecl) names) = ARun a' /\ AInv a' ((fr', pr) :: rest) /\
     fid fr' = fid fr /\ fisfunc fr' = fisfunc fr /\ dnames fr' = dnames fr ++ names /\
+    (forall e, In e (fund fr') -> In e (fund fr)) /\
     anext a' = anext a /\
     map (final (env_of ((fr, pr) :: rest))) (alog a')
     = rev (map (TBind (fid fr) false) names) ++ map (final (env_of ((fr, pr) :: rest))) (alog a).
 Proof.
   induction names as [|x names IH]; intros a fr pr rest A Hnd Hin.
-  - exists a, fr. cbn. rewrite app_nil_r. split; [reflexivity|]. split; [exact A|]. repeat split; reflexivity.
+  - exists a, fr. cbn. rewrite app_nil_r. split; [reflexivity|]. split; [exact A|]. repeat split; try reflexivity. tauto.
   - inversion Hnd as [|? ? Hx Hnd']; subst. destruct (Hin x (or_introl eq_refl)) as [Hp Hn].
     destruct (L_decl_top a fr pr rest CatchDecl x A (or_intror (or_intror eq_refl)) Hn) as (a1 & fr1 & H1 & A1 & E1 & E2 & E3 & E4 & E5 & E6).
     { unfold pnames. apply in_app_iff. right. exact Hp. } { intros _. exact Hp. } { discriminate. }
-    destruct (IH a1 fr1 pr rest A1 Hnd') as (a' & fr' & H2 & A' & F1 & F2 & F3 & F5 & F6).
+    destruct (IH a1 fr1 pr rest A1 Hnd') as (a' & fr' & H2 & A' & F1 & F2 & F3 & F4 & F5 & F6).
     { intros y Hy. destruct (Hin y (or_intror Hy)) as [Hyp Hyn]. split; [exact Hyp|]. rewrite E3. intros Hi. apply in_app_last in Hi.
       destruct Hi as [Hi| ->]; contradiction. }
     exists a', fr'. cbn [map arun astep]. unfold NoDecl, CatchDecl in *. cbn [Z.eqb]. rewrite H1. split; [exact H2|]. split; [exact A'|].
-    split; [congruence|]. split; [congruence|]. split; [rewrite F3, E3, <- app_assoc; reflexivity|]. split; [congruence|].
+    split; [congruence|]. split; [congruence|]. split; [rewrite F3, E3, <- app_assoc; reflexivity|].
+    split; [intros e He; apply E4; apply F4; exact He|]. split; [congruence|].
     assert (Eenv : env_of ((fr1, pr) :: rest) = env_of ((fr, pr) :: rest)) by (cbn; rewrite E1; reflexivity).
     rewrite Eenv in F6. rewrite F6, E6. rewrite E1. cbn [map rev]. rewrite <- app_assoc. reflexivity.
 Qed.
 
 Lemma run_ok_catch hd b k :
   catch_params_only hd = true -> disjointb (headdecls hd) (vardecls b) = true ->
+  headdecls b = [] -> headdecls k = [] ->
   run_ok b -> run_ok k -> run_ok (Catch hd b k).
 Proof.
-  intros Hhd Hdisj IHb IHk a fr pr rest A Hnd Hlex Hvar Hok.
+  intros Hhd Hdisj Hb0 Hk0 IHb IHk a fr pr rest A Hnd Hlex Hvar _ _ Hok.
   destruct (catch_params_lexvar hd Hhd) as [Ehl Ehv].
   cbn [lexdecls] in Hnd, Hlex. cbn [vardecls] in Hvar. rewrite Ehv in Hvar. cbn [app] in Hvar. cbn [spec_ok] in Hok.
   apply andb_true_iff in Hok. destruct Hok as [Hok Hokk]. apply andb_true_iff in Hok. destruct Hok as [Hok Hokb].
@@ -254,14 +362,15 @@ Proof.
   destruct (L_enter a ((fr, pr) :: rest) false prC A) as (a1 & H1 & A1 & El1 & En1).
   { intros y _ []. }
   set (C0 := mkF (anext a) false [] [] O) in *.
-  destruct (run_catch_params (headdecls hd) a1 C0 prC ((fr, pr) :: rest) A1 Hndp) as (a2 & C2 & R2 & A2 & E1 & E2 & E3 & En2 & Fp).
+  destruct (run_catch_params (headdecls hd) a1 C0 prC ((fr, pr) :: rest) A1 Hndp) as (a2 & C2 & R2 & A2 & E1 & E2 & E3 & E4 & En2 & Fp).
   { intros y Hy. split; [cbn [plex prC]; apply in_app_iff; left; exact Hy|intros []]. }
-  cbn [fid fisfunc C0] in E1, E2. cbn [dnames fdecl C0 map app] in E3.
-  destruct (IHb a2 C2 prC ((fr, pr) :: rest) A2 Hndb) as (a3 & C' & z1 & R3 & A3 & G3 & P1b & P2b & F3 & N3).
+  cbn [fid fisfunc C0] in E1, E2. cbn [dnames fdecl C0 map app] in E3. cbn [fund C0] in E4.
+  destruct (IHb a2 C2 prC ((fr, pr) :: rest) A2 Hndb) as (a3 & C' & z1 & R3 & A3 & G3 & P1b & P2b & _ & P4b & F3 & N3).
   { intros y Hy. split; [cbn [plex prC]; apply in_app_iff; right; exact Hy|]. rewrite E3. apply Hlh. exact Hy. }
   { intros y Hy. cbn [var_ok]. rewrite E2. split.
     - unfold pnames. cbn [pvar plex prC app]. intros Hi. apply in_app_iff in Hi. destruct Hi as [Hi|Hi]; [apply (Hhv y Hi Hy)|apply (Hlv y Hi Hy)].
     - apply Hvar. apply in_app_iff. left. exact Hy. }
+  { rewrite Hb0. constructor. } { rewrite Hb0. intros y []. }
   { exact Hokb. }
   pose proof (grow_shape _ _ _ _ G3) as Hs3. cbn [shape map fst snd] in Hs3. injection Hs3 as HfidC HfC Hs3.
   destruct (shape_cons_inv z1 fr pr rest Hs3) as (P' & rest1 & -> & _ & _ & _).
@@ -283,51 +392,88 @@ Proof.
   assert (Hle : (anext a <= snd RB)%nat).
   { rewrite <- N3. destruct A3 as [_ _ An _]. pose proof (An (C', prC) (or_introl eq_refl)) as H. cbn [fst] in H. lia. }
   destruct (after_scope k (vardecls b) IHk a fr pr rest a3 C' prC P' rest1 (headdecls hd ++ lexdecls b)
-              (map (TBind (anext a) false) (headdecls hd) ++ fst RB) (snd RB) A A3 HfidC' Epn Hs3)
-    as (a' & fr' & rest' & R & A' & G & P1 & P2 & Pf & F & N).
+              (map (TBind (anext a) false) (headdecls hd) ++ fst RB) (snd RB) (allnames b) A A3 HfidC' Epn Hs3)
+    as (a' & fr' & rest' & R & A' & G & P1 & P2 & Pf & P3 & P4 & F & N).
   { rewrite Eb'. exact Gp. }
   { rewrite Eb'. exact Gr. }
   { intros y Hy. rewrite Epn in Hy. apply in_app_iff in Hy. destruct Hy as [Hy|Hy].
     - apply G3i. unfold dn. cbn [fst]. rewrite E3. exact Hy.
     - apply P1b. exact Hy. }
+  { intros y Hy. destruct (P4b y Hy) as [H|H]; [destruct (E4 _ H)|exact H]. }
   { rewrite F3, rev_app_distr, <- app_assoc. reflexivity. }
   { exact N3. }
   { exact Hle. }
   { exact Hnd. } { exact Hlex. }
   { rewrite Eb'. intros y Hy. apply Hvar. apply in_app_iff. left. exact Hy. }
   { intros y Hy. apply Hvar. apply in_app_iff. right. exact Hy. }
+  { rewrite Hk0. constructor. } { rewrite Hk0. intros y []. }
   { exact Hokk. }
   exists a', fr', rest'. split.
   { cbn [linearise arun astep]. rewrite H1. rewrite arun_app. rewrite (catch_params_lin hd Hhd), R2.
     rewrite arun_app, R3. exact R. }
   split; [exact A'|]. split.
-  { cbn [vardecls]. rewrite Ehv. cbn [app]. rewrite Eb' in G. exact G. }
+  { cbn [lexdecls headdecls vardecls]. rewrite Ehv. cbn [app]. rewrite Eb' in G. exact G. }
   split; [exact P1|]. split.
   { cbn [vardecls]. rewrite Ehv. cbn [app]. intros y Hy. apply in_app_iff in Hy. destruct Hy as [Hy|Hy]; [|apply P2; exact Hy].
     apply Pf. specialize (P2b y Hy). cbn [func_dnames] in P2b. rewrite HfC, E2 in P2b. exact P2b. }
+  split; [cbn [headdecls]; exact P3|]. split.
+  { intros y Hy. cbn [allnames]. destruct (P4 y Hy) as [H|[H|H]]; [left; exact H|right|right].
+    - apply in_app_iff. right. apply in_app_iff. left. exact H.
+    - apply in_app_iff. right. apply in_app_iff. right. exact H. }
   cbn [resolve]. rewrite (resolve_catch_params _ _ _ _ _ Hhd). rewrite <- HeqRB. destruct RB as [rb n1]. cbn [fst snd] in *.
   destruct (resolve (env_of ((fr, pr) :: rest)) (func_of ((fr, pr) :: rest)) (fid fr) false n1 k) as [rk n2].
   cbn [fst snd app] in *. split; [|exact N]. rewrite F. rewrite !rev_app_distr, <- !app_assoc. reflexivity.
 Qed.
 
 (* ---- the fragment ---------------------------------------------------------------------------------------------- *)
-Theorem run_core p : core p = true -> run_ok p.
+Theorem run_core_d p : (core_d p = true -> run_ok p) /\ (pcore_d p = true -> run_ok p).
 Proof.
-  induction p; intros Hc; cbn [core] in Hc; try discriminate.
+  induction p; (split; [intros Hc; cbn [core_d] in Hc|intros Hc; cbn [pcore_d] in Hc]); try discriminate.
   - (* Done *)
-    intros a fr pr rest A _ _ _ _. exists a, fr, rest. split; [reflexivity|]. split; [exact A|].
-    split; [apply grow_top_same; reflexivity|]. split; [intros y []|]. split; [intros y []|]. split; reflexivity.
-  - apply run_ok_ref. apply IHp. exact Hc.
-  - apply andb_true_iff in Hc. destruct Hc as [Hd Hc]. destruct d; try discriminate.
-    + apply run_ok_var; [left; reflexivity|apply IHp; exact Hc].
-    + apply run_ok_var; [right; reflexivity|apply IHp; exact Hc].
-    + apply run_ok_lex. apply IHp. exact Hc.
-  - apply andb_true_iff in Hc. destruct Hc as [H1 H2]. apply run_ok_block; [apply IHp1; exact H1|apply IHp2; exact H2].
-  - destruct nm; [discriminate|]. apply andb_true_iff in Hc. destruct Hc as [Hc H3]. apply andb_true_iff in Hc. destruct Hc as [H1 H2].
-    apply run_ok_func; [exact H1|apply IHp2; exact H2|apply IHp3; exact H3].
-  - apply andb_true_iff in Hc. destruct Hc as [Hc H3]. apply andb_true_iff in Hc. destruct Hc as [H1 H2].
-    apply run_ok_arrow. apply run_ok_func; [exact H1|apply IHp2; exact H2|apply IHp3; exact H3].
-  - apply andb_true_iff in Hc. destruct Hc as [Hc H4]. apply andb_true_iff in Hc. destruct Hc as [Hc H3].
+    intros a fr pr rest A _ _ _ _ _ _. exists a, fr, rest. split; [reflexivity|]. split; [exact A|].
+    split; [apply grow_top_same; reflexivity|]. split; [intros y []|]. split; [intros y []|]. split; [intros y []|].
+    split; [intros y Hy; left; exact Hy|]. split; reflexivity.
+  - intros a fr pr rest A _ _ _ _ _ _. exists a, fr, rest. split; [reflexivity|]. split; [exact A|].
+    split; [apply grow_top_same; reflexivity|]. split; [intros y []|]. split; [intros y []|]. split; [intros y []|].
+    split; [intros y Hy; left; exact Hy|]. split; reflexivity.
+  - (* Ref *)
+    apply run_ok_ref; [rewrite (core_d_headdecls p Hc); intros []|apply (proj1 IHp); exact Hc].
+  - apply andb_true_iff in Hc. destruct Hc as [Hx Hc]. apply run_ok_ref; [|apply (proj2 IHp); exact Hc].
+    apply negb_true_iff in Hx. apply mem_not_in. exact Hx.
+  - (* Decl *)
+    apply andb_true_iff in Hc. destruct Hc as [Hd Hc]. pose proof (core_d_headdecls p Hc) as Hk0. destruct d; try discriminate.
+    + apply run_ok_var; [left; reflexivity|exact Hk0|apply (proj1 IHp); exact Hc].
+    + apply run_ok_var; [right; reflexivity|exact Hk0|apply (proj1 IHp); exact Hc].
+    + apply run_ok_lex; [exact Hk0|apply (proj1 IHp); exact Hc].
+  - destruct d; try discriminate. apply run_ok_param. apply (proj2 IHp). exact Hc.
+  - (* Block *)
     apply andb_true_iff in Hc. destruct Hc as [H1 H2].
-    apply run_ok_catch; [exact H1|exact H2|apply IHp2; exact H3|apply IHp3; exact H4].
+    apply run_ok_block; [apply core_d_headdecls; exact H1|apply core_d_headdecls; exact H2|apply (proj1 IHp1); exact H1|apply (proj1 IHp2); exact H2].
+  - (* Func in a statement list *)
+    destruct nm; [discriminate|]. apply andb_true_iff in Hc. destruct Hc as [Hc H4]. apply andb_true_iff in Hc. destruct Hc as [Hc H3].
+    apply andb_true_iff in Hc. destruct Hc as [H1 H2].
+    apply run_ok_func; [exact H1|exact H2|apply core_d_headdecls; exact H3| |apply (proj2 IHp1); exact H1|apply (proj1 IHp2); exact H3|apply (proj1 IHp3); exact H4].
+    rewrite (core_d_headdecls p3 H4). intros y [].
+  - (* Func in a parameter list *)
+    destruct nm; [discriminate|]. apply andb_true_iff in Hc. destruct Hc as [Hc H5]. apply andb_true_iff in Hc. destruct Hc as [Hc H4].
+    apply andb_true_iff in Hc. destruct Hc as [Hc H3]. apply andb_true_iff in Hc. destruct Hc as [H1 H2].
+    apply run_ok_func; [exact H1|exact H2|apply core_d_headdecls; exact H3| |apply (proj2 IHp1); exact H1|apply (proj1 IHp2); exact H3|apply (proj2 IHp3); exact H5].
+    intros y Hy Hin. apply (disjointb_spec _ _ H4 y Hin Hy).
+  - (* Arrow in a statement list *)
+    apply andb_true_iff in Hc. destruct Hc as [Hc H4]. apply andb_true_iff in Hc. destruct Hc as [Hc H3].
+    apply andb_true_iff in Hc. destruct Hc as [H1 H2]. apply run_ok_arrow.
+    apply run_ok_func; [exact H1|exact H2|apply core_d_headdecls; exact H3| |apply (proj2 IHp1); exact H1|apply (proj1 IHp2); exact H3|apply (proj1 IHp3); exact H4].
+    rewrite (core_d_headdecls p3 H4). intros y [].
+  - (* Arrow in a parameter list *)
+    apply andb_true_iff in Hc. destruct Hc as [Hc H5]. apply andb_true_iff in Hc. destruct Hc as [Hc H4].
+    apply andb_true_iff in Hc. destruct Hc as [Hc H3]. apply andb_true_iff in Hc. destruct Hc as [H1 H2]. apply run_ok_arrow.
+    apply run_ok_func; [exact H1|exact H2|apply core_d_headdecls; exact H3| |apply (proj2 IHp1); exact H1|apply (proj1 IHp2); exact H3|apply (proj2 IHp3); exact H5].
+    intros y Hy Hin. apply (disjointb_spec _ _ H4 y Hin Hy).
+  - (* Catch *)
+    apply andb_true_iff in Hc. destruct Hc as [Hc H4]. apply andb_true_iff in Hc. destruct Hc as [Hc H3].
+    apply andb_true_iff in Hc. destruct Hc as [H1 H2].
+    apply run_ok_catch; [exact H1|exact H2|apply core_d_headdecls; exact H3|apply core_d_headdecls; exact H4|apply (proj1 IHp2); exact H3|apply (proj1 IHp3); exact H4].
 Qed.
+
+Corollary run_core p : core_d p = true -> run_ok p.
+Proof. apply run_core_d. Qed.
